@@ -16,7 +16,7 @@ EXTENDS Integers, Sequences, FiniteSets, TLC, Json
 
 RC == [VALID |-> 1, NOT_VALID |-> 2, SUCCESS |-> 0, ERROR |-> -1, KEY_NOT_FOUND |-> -4, SUITE |-> -6, AFI |-> -7,
        COUNT |-> -8, ARGS |-> -9]
-KeyVariants == {"right", "two", "wrongkey", "otheras", "none", "vanish"}   \* vanish: the key is withdrawn while the path is being validated, and the hop's signature is damaged
+KeyVariants == {"right", "two", "garbagefirst", "wrongkey", "garbage", "otheras", "none", "vanish"}   \* garbage: 91 octets that are no P-256 key (alone, or registered before the right key);   \* vanish: the key is withdrawn while the path is being validated, and the hop's signature is damaged
 Fields == {"target", "pcount", "flags", "asn", "safi", "afi12", "nlri", "nlrilen", "ski", "sig", "sigder"}   \* sigder: the DER framing of a signature is damaged
 
 (* which hops' signatures a corruption invalidates (for the record; any non-empty set means not VALID) *)
@@ -29,7 +29,7 @@ Broken(n, f, h) ==
     [] f = "ski" -> 1..h                                      \* (and the hop's own key lookup fails)
     [] OTHER -> {}
 
-HopVerifies(c, i) == /\ c.kv[i] \in {"right", "two"}
+HopVerifies(c, i) == /\ c.kv[i] \in {"right", "two", "garbagefirst"}
                      /\ (c.corrupt.f = "none" \/ i \notin Broken(c.hops, c.corrupt.f, c.corrupt.hop))
 Expected(c) ==
   IF c.argerr = "count" THEN (IF c.hops = 1 THEN {RC.COUNT, RC.ARGS} ELSE {RC.COUNT})     \* one hop without its signature segment: no signature list at all
@@ -51,7 +51,7 @@ CasesCorrupt(n) == {[hops |-> n, kv |-> [i \in 1..n |-> IF i % 2 = 0 THEN "two" 
 CasesArg(n) == {[hops |-> n, kv |-> [i \in 1..n |-> "right"], corrupt |-> NoCorr, argerr |-> a] : a \in {"count", "suite", "afi"}}
 Cases == UNION {CasesClean(n) \cup CasesCorrupt(n) \cup CasesArg(n) : n \in 1..3}
 (* design-level sanity of the decision table itself *)
-ASSUME \A c \in Cases : (RC.VALID \in Expected(c)) <=> (c.argerr = "none" /\ c.corrupt.f = "none" /\ \A i \in 1..c.hops : c.kv[i] \in {"right", "two"})
+ASSUME \A c \in Cases : (RC.VALID \in Expected(c)) <=> (c.argerr = "none" /\ c.corrupt.f = "none" /\ \A i \in 1..c.hops : c.kv[i] \in {"right", "two", "garbagefirst"})
 ASSUME \A c \in Cases : c.corrupt.f # "none" => RC.VALID \notin Expected(c)          \* every single-field corruption is noticed
 ASSUME \A c \in Cases : (\E i \in 1..c.hops : c.kv[i] = "otheras") => RC.VALID \notin Expected(c)   \* a key under another AS never helps
 ASSUME PrintT(<<"CASES", ToJson(Cases)>>)
